@@ -20,10 +20,15 @@ EXPLANATION = (
     'least two groups, so "0::" never stands for a single leading zero group; (TAB.1) each optional hex '
     'digit part>>k is printed exactly when part >= 16^(k/4), and the last digit unconditionally; (GRD.3) the '
     'dotted-quad form is used only when words 0-4 are zero and word 5 is 0 or 0xffff (no address bits are '
-    'dropped).  NOT '
+    'dropped); (IDX.1/SHF.1) octagon analysis of the printer: every subscript of the group array and of the hex-digit '
+    'table is in range, every shift count is below the operand width and no left shift computed in int reaches the '
+    'sign bit; (COPY.1) in the parser, a loop that moves groups within the address array (the "::" expansion) '
+    'walks in the direction in which no group is overwritten before it is read - destination ahead of the source '
+    'needs a descending walk - decided from the sign of (destination index - source index) under the invariants '
+    'the octagon analysis proves (ii <= 8, cpos <= ii).  NOT '
     'decided: that the parser maps the text back to the same address (values over 2^128 inputs; the parser\'s '
     'index arithmetic needs relational invariants, see C13).')
-ASSUMPTIONS = ['clang 14 CFG', 'the parser irc_pton is not analysed (declined with C13)']
+ASSUMPTIONS = ['clang 14 CFG', 'of the parser irc_pton only the direction of its overlapping group copy is decided here (its memory clause is C13)']
 
 
 class _NoWord6(object):
@@ -265,6 +270,105 @@ def digit_thresholds(P, R, f, out, posv):
     R.floor('C12.TAB.1', 5)
 
 
+class _Sym(object):
+    """plain symbolic linear form over variable names (mathematical integers)"""
+    def __init__(self, t=None, c=0):
+        self.t = {k: v for k, v in (t or {}).items() if v}
+        self.c = c
+
+    def add(self, o, s=1):
+        t = dict(self.t)
+        for k, v in o.t.items():
+            t[k] = t.get(k, 0) + s * v
+        return _Sym(t, self.c + s * o.c)
+
+
+def _sym(e):
+    if not isinstance(e, dict):
+        return None
+    c = const_of(e)
+    if isinstance(c, int):
+        return _Sym({}, c)
+    k = e.get('k')
+    if k == 'var':
+        return _Sym({e['name']: 1}, 0)
+    if k == 'un' and e.get('op') in ('++', '--') and is_var(e.get('e')):
+        return _Sym({e['e']['name']: 1}, (-1 if e['op'] == '++' else 1) if e.get('postfix') else 0)
+    if k == 'un' and e.get('op') == '-':
+        a = _sym(e['e'])
+        return _Sym({v: -x for v, x in a.t.items()}, -a.c) if a else None
+    if k == 'bin' and e.get('op') in ('+', '-'):
+        a, b = _sym(e['l']), _sym(e['r'])
+        if a is None or b is None:
+            return None
+        return a.add(b, 1 if e['op'] == '+' else -1)
+    if k == 'bin' and e.get('op') == '*':
+        a, b = _sym(e['l']), _sym(e['r'])
+        if a is None or b is None:
+            return None
+        if not a.t:
+            return _Sym({v: x * a.c for v, x in b.t.items()}, a.c * b.c)
+        if not b.t:
+            return _Sym({v: x * b.c for v, x in a.t.items()}, a.c * b.c)
+    return None
+
+
+def copy_direction(P, R, f, rule='C12.COPY.1'):
+    """Loops of the form A[f(j)] = A[g(j)] over one array: the walk must not overwrite what it still has to read."""
+    from .. import numeric
+    an = None
+    n = 0
+    for s in f.stores():
+        ev = s.ev
+        if ev['k'] != 'store' or ev.get('op') != '=':
+            continue
+        lhs, rhs = ev.get('lhs') or {}, ev.get('rhs') or {}
+        if lhs.get('k') != 'idx' or rhs.get('k') != 'idx' or not same(lhs['base'], rhs['base']) or not isinstance(lhs['base'].get('arr'), int):
+            continue
+        fi = _sym(f.expand_local(lhs['index'], s))
+        gi = _sym(f.expand_local(rhs['index'], s))
+        if fi is None or gi is None:
+            continue
+        # induction variable: stepped by ++/-- in a block on a cycle through this store
+        cyc = f.reach([s.bid])
+        steps = {}
+        for t in f.stores():
+            if t.ev['k'] == 'store' and is_var(t.ev.get('lhs')) and t.ev.get('op') in ('++', '--') and t.bid in cyc and s.bid in f.reach([t.bid]):
+                steps.setdefault(t.ev['lhs']['name'], set()).add(1 if t.ev['op'] == '++' else -1)
+        ind = [v for v in steps if fi.t.get(v) and gi.t.get(v) and len(steps[v]) == 1]
+        if len(ind) != 1:
+            continue
+        j = ind[0]
+        if fi.t[j] != gi.t[j] or abs(fi.t[j]) != 1:
+            continue
+        n += 1
+        direction = fi.t[j] * list(steps[j])[0]          # +1: destination index ascends from one iteration to the next
+        d = fi.add(gi, -1)                                   # destination - source, free of j
+        if an is None:
+            an = numeric.Analysis(f)
+        sts = an.at(s)
+        lo = hi = None
+        if sts and all(v in an.vs_set for v in d.t):
+            hi = max(o.bound_terms(d.t) + d.c for o in sts)
+            lo = min(-(o.bound_terms({v: -a for v, a in d.t.items()})) + d.c for o in sts)
+        dtxt = ' + '.join(['%s*%s' % (a, v) for v, a in sorted(d.t.items())] + [str(d.c)])
+        if lo is None:
+            R.ob(rule, True, s, 'group move %s = %s: the distance (%s) involves values the analysis does not track; direction not judged' % (sx(lhs), sx(rhs), dtxt),
+                 key='copydir:%s:untracked' % f.name, nontrivial=False)
+            continue
+        if lo >= 0 and hi > 0:
+            ok = direction < 0
+            want = 'descending'
+        elif hi <= 0 and lo < 0:
+            ok = direction > 0
+            want = 'ascending'
+        else:
+            ok, want = True, 'either (the sign of the distance is not fixed)'
+        R.ob(rule, ok, s, 'group move %s = %s: destination - source = %s in [%s, %s], so the walk must be %s; it is %s in %s' %
+             (sx(lhs), sx(rhs), dtxt, lo, hi, want, 'ascending' if direction > 0 else 'descending', j), key='copydir:%s' % f.name)
+    return n
+
+
 def run(P, R, tier):
     from ..report import Remap
     from . import c09
@@ -277,4 +381,15 @@ def run(P, R, tier):
     run_counter(P, R, f)
     compression(P, R, f, out, posv, lv, body)
     digit_thresholds(P, R, f, out, posv)
+    from . import c13
+    c13.numeric_rules(P, R, [f], prefix='C12')
+    R.floor('C12.IDX.1', 4, 'group and hex-digit subscripts of the printer')
+    R.floor('C12.SHF.1', 4, 'digit shifts of the printer')
+    pf = P.need_fn('irc_pton')
+    n = copy_direction(P, R, pf)
+    if n == 0:
+        # the expansion may have been rewritten with memmove (direction-safe by contract); then there is nothing to judge
+        mm = [c for g in c13.scope(P) for c in g.calls('memmove')]
+        R.ob('C12.COPY.1', bool(mm), pf, 'the "::" expansion moves the groups either with an index loop (direction judged) or with memmove (safe for overlap)', key='copydir:none', nontrivial=False)
+    R.floor('C12.COPY.1', 1)
     return EXPLANATION, ASSUMPTIONS
